@@ -201,7 +201,7 @@ specfun("est_fee_q", ["m", "o"],
 specfun("req_of", ["m", "o", "s"],
         "ite(s == ob(o), (-est_b(m, o) if est_b(m, o) < 0 else 0), "
         "ite(s == oq(o), (-(est_q(m, o) + est_fee_q(m, o)) if est_q(m, o) + est_fee_q(m, o) < 0 else 0), 0))")
-contract(OM + "_estimate_required_balances", props=["C06", "C07"], returns="ValueMap", modifies=[], callee_variant="ongrid",
+contract(OM + "_estimate_required_balances", props=["C06", "C07", "C08"], returns="ValueMap", modifies=[], callee_variant="ongrid",
          requires=[("order", "order_wf(order) and wf_config(om_cfg(self), order._pair)"), ("fees", "fee_wf(self._ctx.fee_strategy)"),
                    # validated requests have their amount on the base grid (requests.validate, C08)
                    ("amount_on_grid", "grid(order._amount, bp_of(self, order)) and grid(-order._amount, bp_of(self, order))"),
